@@ -1889,6 +1889,55 @@ Proof.
   fold w in Hrel, E. exists rel. split; [exact Hrel|]. rewrite E. f_equal. clear. induction (rel ++ retained w l) as [|y r IH]; [reflexivity|]. cbn [filter]. rewrite IH. reflexivity.
 Qed.
 
+(* ---------- the LP states ---------- *)
+(* in a related state every LP's state is the abstract one: the handlers folded over the LP's (released and retained) history *)
+Lemma R_state w a l : R w a -> l < n -> x_st (get_lp w l) = Abs.stof cont lpstate (AppAbs.s0 p) (ahandle p) l (Abs.hist cont a l).
+Proof.
+  intros Hr Hl. pose proof Hr as [F Hlen _ _ _ Hh _ _ _].
+  assert (Hlw : l < length (k_lps w)) by (rewrite Hlen; exact Hl).
+  destruct (Hh l Hl) as (g0 & gdone & gs & Ehist & Ebase & Eah & _ & _).
+  destruct (get_ok2 p w l (f_ok p w F) Hlw) as [(newer & r0 & s0' & El & _ & _ & Hst) _].
+  pose proof (base_eq (get_lp w l) newer r0 s0' El) as Eb. rewrite Ebase in Eb. injection Eb as <- <-.
+  rewrite Hst, Ehist, skipn_flat_app, Eah. apply stofg_app; [exact Hl|].
+  intros g Hgg. destruct (proj2 (f_extra p w F) l Hlw) as (_ & _ & Hd & _). rewrite <- (Hd (snd g)); [rewrite N2Nat.id; reflexivity|].
+  rewrite Ehist. apply in_procs. rewrite procs_flat, map_app. apply in_or_app. right. apply in_map. exact Hgg.
+Qed.
+
+(* C01 on states: at quiescence every LP's state is the state the sequential execution leaves it in *)
+Theorem worker_quiescent_state_is_sequential (ops : list wop) :
+  let w := fold_left (wstep p ck) ops (w_init p) in
+  pend w = [] ->
+  forall tr, Peel.seqrun cont (Abs.clt cont cltb) lpstate (Bridge.handle_g cont lpstate (ahandle p) (fun _ => true)) (AppAbs.s0 p) (Bridge.Pg cont init0 (fun _ => true)) tr ->
+  forall l, l < n -> x_st (get_lp w l) = fold_left (fun s c => fst (ahandle p l s c)) (Peel.proj cont l tr) (AppAbs.s0 p l).
+Proof.
+  intros w Hq tr Hrun l Hl. destruct (worker_refines_abstract ops) as (a & Hr). fold w in Hr.
+  pose proof Hr as [F Hlen M0 N5 Hre Hh Hp Ha _].
+  assert (G : Bridge.gvt_ok cont (fun _ => true) a).
+  { constructor.
+    - intros x0 Hx. apply Hp in Hx. destruct Hx as (y & [Hy _] & _). rewrite Hq in Hy. destruct Hy.
+    - intros l0 e He Hd. destruct (Nat.lt_ge_cases l0 n) as [Hl0|Hl0].
+      + destruct (Hh l0 Hl0) as (g0 & gdone & gs & E1 & _ & E4 & Hghost & _). rewrite E4 in He. apply in_map_iff in He. destruct He as (g & <- & Hgg).
+        cbn [ent Abs.em snd] in Hd. apply in_app_or in Hgg. destruct Hgg as [Hgg|Hgg]; [destruct (Hghost g Hgg) as [_ Hnd]; congruence|].
+        assert (Hpr : In (snd g) (allprocs (k_lps w))).
+        { apply in_allprocs_iff. exists l0. split; [rewrite Hlen; exact Hl0|]. rewrite E1. apply in_procs. rewrite procs_flat, map_app. apply in_or_app. right. apply in_map. exact Hgg. }
+        apply (doomed_iff w a (snd g) Hr Hpr) in Hd.
+        destruct (l_pr _ _ _ _ _ _ (once_loc w F) (snd g) Hpr) as [[_ Hin]|[[H2 _]|[H5 _]]]; [|congruence|congruence].
+        rewrite Hq in Hin. destruct Hin.
+      + exfalso.
+        assert (Hemp : forall a0, areach a0 -> forall k, n <= k -> Abs.hist cont a0 k = []).
+        { intros a0 R0. induction R0 as [|a0 a1 R0 IH S]; intros k Hk; [reflexivity|].
+          destruct S; cbn [Abs.hist]; try (apply IH; exact Hk); unfold Abs.upd; destruct (Nat.eqb_spec k l1); try lia; apply IH; exact Hk. }
+        rewrite (Hemp a Hre l0 Hl0) in He. destruct He. }
+  rewrite (Bridge.time_warp_below_gvt_is_sequential cont cltb clt_irrefl clt_trans clt_total tltb tlt_clt clt_not_tlt tlt_negtrans lpstate n (AppAbs.s0 p) (ahandle p)
+             (avalid p Hvalid) init0 ltac:(intros x0 Hx; unfold init0 in Hx; apply in_map_iff in Hx; destruct Hx as (y & <- & Hy); cbn [amsg Abs.mdest];
+                                          destruct (w_init_full p H_time H_type H_dest (fun me e => app_init p me e Htypes)) as [F0 Hl0]; destruct (f_extra p _ F0) as [Hxp _]; destruct (Hxp y Hy) as [_ Hd]; rewrite Hl0 in Hd; exact Hd)
+             (fun _ => true) (fun _ _ _ _ => eq_refl) init0_nodup N0 a init0_lt Hre G tr Hrun l Hl).
+  rewrite (R_state w a l Hr Hl). unfold Bridge.Hg, Abs.stof.
+  assert (Ef : filter (Bridge.belowe cont (fun _ => true)) (Abs.hist cont a l) = Abs.hist cont a l).
+  { induction (Abs.hist cont a l) as [|e r IH]; [reflexivity|]. cbn [filter]. unfold Bridge.belowe at 1. rewrite IH. reflexivity. }
+  rewrite Ef. clear. generalize (AppAbs.s0 p l). induction (Abs.hist cont a l) as [|e r IH]; intros st; [reflexivity|]. cbn [map fold_left]. apply IH.
+Qed.
+
 (* C03 at process.c level: for every bound g at or below the worker's GVT, what fossil collection has released followed by the retained
    entries below g is exactly the LP's part of the sequential execution below g; at g = GVT nothing released is filtered away *)
 Theorem worker_committed_is_sequential (ops : list wop) (g : N) :
